@@ -69,6 +69,14 @@ def d3_rewind_restores(ctx, rm: REModel):
     ok = any(isinstance(s, ast.Assign) and A.chain(s.targets[0]) == "self.bundling" and isinstance(s.value, ast.Constant) and s.value.value is False for s in seq)
     ctx.ob("C03.D3-rewind-restores-counters", cname(rw, None, "an open bundle is cancelled"), ok,
            "" if ok else "a bundle opened after the checkpoint stays open across the rewind (the replayed 'create' is rejected)", where=where(rw, rw.node))
+    # the readings of the interrupted bundle must be gone when the replayed `create` ... `read` run again
+    cr = rm.b("create")
+    cleared = {A.norm(x) for f2 in (cr, rw) for x in A.walk_stmts(f2.node.body)}
+    for c in ("self._read_cache.clear()", "self._asset_docs_cache.clear()", "self._objs_read.clear()"):
+        ok = c in cleared
+        ctx.ob("C03.D3-interrupted-bundle-discarded", cname(rw, None, f"{c} in create or rewind"), ok,
+               "" if ok else "a pause between `read` and `save` leaves the bundle's readings behind: the replayed read collides with them and the resume fails",
+               nontrivial=True, where=where(cr, cr.node))
     snap = rm.b("reset_checkpoint_state")
     loops = [s for s in A.walk_stmts(snap.node.body) if isinstance(s, ast.For) and "self._sequence_counters" in A.norm(s.iter)]
     ok = bool(loops) and any(isinstance(x, ast.Assign) and "self._sequence_counters_copy[" in A.norm(x.targets[0]) for x in A.walk_stmts(loops[0].body))
